@@ -148,8 +148,41 @@ def extra(report, env):
         r = p.parse('SUMIFS(xs,cs,">%d",ws,"a*")' % t)
         if not (r['error'] is None and close(r['result'], sum(sel2))) and len(fails) < 5:
             fails.append({'formula': 'SUMIFS(xs,cs,">%d",ws,"a*") xs=%r cs=%r ws=%r' % (t, xs, crit_cells, words), 'detail': 'expected %s got %r' % (float(sum(sel2)), r)})
-    # an error among the items makes the result that error
+        # several criteria ranges, criterion texts drawn from a small pool (so the same text is often applied to different ranges)
+        crit_pool = [('">0"', lambda c: c > 0), ('"<=1"', lambda c: c <= 1), ('"<>2"', lambda c: c != 2), ('"0"', lambda c: c == 0), ('">=-1"', lambda c: c >= -1)]
+        for _k in range(3):
+            m = rng.randint(2, 3)
+            ranges = [[rng.randint(-2, 3) for _ in range(n)] for _ in range(m)]
+            crits = [rng.choice(crit_pool) for _ in range(m)]
+            if _k == 0:
+                crits = [crits[0]] * m           # the same criterion text on every range
+            for i, rg in enumerate(ranges):
+                p.set_variable('r%s' % 'abc'[i], rg)
+            tail = ','.join('r%s,%s' % ('abc'[i], crits[i][0]) for i in range(m))
+            sel = [fx[j] for j in range(n) if all(crits[i][1](ranges[i][j]) for i in range(m))]
+            for text, want in (('SUMIFS(xs,%s)' % tail, sum(sel)), ('MAXIFS(xs,%s)' % tail, max(sel) if sel else 0),
+                               ('AVERAGEIFS(xs,%s)' % tail, mean(sel) if sel else None)):
+                cases += 1
+                r = p.parse(text)
+                ok = (r['error'] is None and close(r['result'], want)) if want is not None else (r['error'] is not None)
+                if not ok and len(fails) < 5:
+                    fails.append({'formula': '%s with xs=%r ranges=%r' % (text, xs, ranges), 'detail': 'expected %s got %r' % ('an error' if want is None else float(want), r)})
+    # an error among the items makes the result that error: every position, zeros and blanks among the other items, regrouped
     from hotxlfp.formulas import error
+    for name in ('SUM', 'PRODUCT', 'AVERAGE', 'MIN', 'MAX', 'MEDIAN'):
+        for _ in range(25 if env['tier'] == 'quick' else 300):
+            n = rng.randint(1, 6)
+            items = [rng.choice([0, 0, 1, 2, -3, 2.5, 10]) for _ in range(n)]
+            err = rng.choice([error.NUM, error.DIV_ZERO, error.NOT_AVAILABLE, error.VALUE])
+            items[rng.randrange(n)] = err
+            parts = partition(items)
+            for i, part in enumerate(parts):
+                p.set_variable('arg%s' % 'abcdefghijklmnopqrstuvwxyzABCDEFGHIJKLMNOP'[i], part)
+            text = '%s(%s)' % (name, ','.join('arg%s' % 'abcdefghijklmnopqrstuvwxyzABCDEFGHIJKLMNOP'[i] for i in range(len(parts))))
+            cases += 1
+            r = p.parse(text)
+            if r['error'] != str(err) and len(fails) < 5:
+                fails.append({'formula': '%s over %r' % (name, parts), 'detail': 'an error among the items must be the result (%s), got %r' % (err, r)})
     for name in ('SUM', 'PRODUCT', 'AVERAGE', 'MIN', 'MAX', 'MEDIAN'):
         for pos_ in (0, 1, 2):
             items = [1, 2, 3]
@@ -176,7 +209,7 @@ def extra(report, env):
             fails.append({'formula': 'SLOPE(ys=%r, xs=%r)' % (ys, xs), 'detail': 'got %r' % (r,)})
     bounded(report, 'C11.aggregates', 'seeded lists of length 1..40 (ints and 2-decimal numbers, duplicates) x 14 statistics x {as given, permuted, '
             'regrouped into arguments / nested arrays} against exact Fraction arithmetic; MODE/GEOMEAN/HARMEAN/LARGE; 5 operator criteria + 4 '
-            'text criteria + a two-criteria SUMIFS per list; error items; 40 SLOPE cases', cases, fails)
+            'text criteria + a two-criteria SUMIFS + three 2..3-criteria *IFS calls (criterion texts repeated) per list; error items at every position among zeros; 40 SLOPE cases', cases, fails)
 
 
 def replay(rp):
